@@ -150,7 +150,13 @@ int main(void)
 #ifdef UFCRC
         cfg.uf = 1; cfg.uf_payload = 0; cfg.uf_meta = 0;
 #endif
-        ref_fragment(&cfg, src, LEN, DEST, ref, SIZE);
+        /* payload from the reference encoder; header (incl. the payload CRC) from the reference serializer
+         * applied to the payload bytes actually returned: "payload == reference payload" and "header ==
+         * reference header for that payload" together are the byte-for-byte fragment equality, and the CRC
+         * circuits on both sides then run over the same expression (a CRC over two structurally different
+         * but equal GF expressions cost > 900 s for RS(2,2) with two erasures) */
+        ref_payload(&cfg, src, LEN, DEST, ref + 80, SIZE);
+        ref_header(&cfg, LEN, DEST, outf + 80, SIZE, ref);
         int hok = 1, pok = 1;
         for (int j = 0; j < 80; j++) {
 #ifdef UFCRC
